@@ -907,3 +907,139 @@ def vector_walks(P, R, rule, units=None):
                  'in %s the loop over %s.used subscripts %s.vec with its index%s' % (f.name, owner, owner, (' (also %s)' % ', '.join(sorted({sx(y) for _, y in bad}))) if bad else ''),
                  key='vector-walk:%s:%s' % (f.name, owner))
     return n
+
+
+def no_static_locals(P, R, rule, fns, what):
+    """Functions whose result must depend on their arguments (and the objects reachable from them) alone keep no state
+    of their own between calls: they declare no non-const static local.  (A scratch value made static survives the
+    call, an error exit, the previous client or the previous reload.)"""
+    n = 0
+    for f in fns:
+        bad = [s for s in f.sites() if s.ev['k'] == 'decl' and s.ev.get('static') and not (s.ev.get('t', '').startswith('const ') or ' const' in s.ev.get('t', ''))]
+        n += 1
+        R.ob(rule, not bad, bad[0] if bad else f, '%s: %s keeps no state between calls (no non-const static local%s)' % (what, f.name, (': ' + ', '.join(t.ev.get('var') for t in bad)) if bad else ''),
+             key='no-static:%s' % f.name)
+    return n
+
+
+def _expr_type(e):
+    if not isinstance(e, dict):
+        return None
+    if e.get('castto'):
+        return e['castto']
+    k = e.get('k')
+    if k in ('var', 'mem'):
+        return e.get('t')
+    if k in ('bin', 'callref'):
+        return e.get('ty')
+    if k in ('idx', 'un'):
+        return e.get('ty') or e.get('t')
+    if k == 'cond':
+        return _expr_type(e.get('t')) or _expr_type(e.get('f'))
+    return None
+
+
+# stores into record members that narrow on purpose: (function, member) -> reason.  Confirmed by reading; frozen.
+NARROW_OK = {
+    ('parse_new_client', 'remote_port'): 'a TCP port is 16 bits by protocol',
+    ('parse_new_client', 'local_port'): 'a TCP port is 16 bits by protocol',
+    ('char_vector_append_string', 'used'): 'length of an in-memory string',
+    ('char_vector_append_vprintf', 'used'): 'length just formatted into the vector',
+    ('conf_parse_string', 'size'): 'length of a token inside the file buffer',
+    ('conf_parse_string', 'used'): 'length of a token inside the file buffer',
+    ('conf_parse_string', 'vec'): 'a byte assembled from two hex nibbles',
+}
+
+
+def narrowing_fields(P, R, rule, units):
+    """What is kept in a record member fits the member: a store whose value has a wider (or differently signed) type
+    than the member - an int id into a short, `1u << slot` into a 16-bit mask, a pass number into a 2-bit field - is
+    accepted only if the numeric analysis bounds the value inside the member's range, or the store is one of the
+    frozen, reasoned truncations.  Members are where state outlives the statement; a narrowed member silently aliases
+    distinct clients, slots or passes."""
+    from . import numeric
+    n = 0
+    for f in P.fns.values():
+        if f.unit not in units:
+            continue
+        an = None
+        for s in f.stores():
+            ev = s.ev
+            if ev['k'] != 'store' or ev.get('op') not in ('=', '|=', '+=', '&=', '-=', '^='):
+                continue
+            lhs = ev['lhs']
+            mem = lhs if lhs.get('k') == 'mem' else (lhs.get('base') if lhs.get('k') == 'idx' and isinstance(lhs.get('base'), dict) and lhs['base'].get('k') == 'mem' else None)
+            if mem is None:
+                continue
+            lt = lhs.get('t') if lhs.get('k') == 'mem' else (lhs.get('t') or lhs.get('ty'))
+            fd = P.record_field(mem.get('rec'), mem.get('field')) or {}
+            if lhs.get('k') == 'mem' and fd.get('bitfield') and fd.get('bitwidth'):
+                lr0 = numeric.type_range(lt or '')
+                w = fd['bitwidth']
+                # an enum bit-field holds its enumerators when it is wide enough for the largest one
+                lr = (0, (1 << w) - 1) if (not lr0 or lr0[0] >= 0 or (lt or '').startswith('enum ')) else (-(1 << (w - 1)), (1 << (w - 1)) - 1)
+            else:
+                lr = numeric.type_range(lt or '')
+            rhs = ev.get('rhs')
+            if not lr or not isinstance(rhs, dict) or rhs.get('castto'):
+                continue
+            c = const_of(rhs)
+            if isinstance(c, int):
+                if not (lr[0] <= c <= lr[1]) and not (c < 0 and lr[0] >= 0):
+                    n += 1
+                    R.ob(rule, False, s, 'the constant %s stored into %s does not fit its type %s' % (c, sx(lhs), lt), key='narrow:%s:%s' % (f.name, mem.get('field')))
+                continue
+            rt = _expr_type(rhs) or ''
+            rr = numeric.type_range(rt)
+            if rt.startswith('enum ') and (lt or '').startswith('enum '):
+                # enum to enum of the same type: the enumerators must fit (bit-field)
+                vals = [c2['v'] for c2 in P.enums.get(rt[5:].strip(), [])]
+                if rt == lt and vals and lr[0] <= min(vals) and max(vals) <= lr[1]:
+                    continue
+            if not rr or (rr[0] >= lr[0] and rr[1] <= lr[1]):
+                continue
+            lo = hi = None
+            try:
+                an = an or numeric.Analysis(f)
+                lo, hi = an.range_of(rhs, an.at(s))
+            except Exception:
+                pass
+            if lo is not None and lo >= lr[0] and hi <= lr[1]:
+                continue
+            why = NARROW_OK.get((f.name, mem.get('field')))
+            n += 1
+            R.ob(rule, bool(why), s, 'the value stored into %s (type %s) fits it: the expression has type %s%s' % (sx(lhs), lt, _expr_type(rhs), (' - accepted: ' + why) if why else ''),
+                 key='narrow:%s:%s' % (f.name, mem.get('field')), nontrivial=not why)
+    R.ob(rule, True, None, 'scanned the member stores of %s for narrowing conversions' % ', '.join(sorted(units)), key='narrow-scan', nontrivial=False)
+    return n
+
+
+def counter_widths(P, R, rule, recs=None):
+    """Members that are stepped with ++ / -- count live objects or events (references, holds, elements, hits): each is
+    at least as wide as int, like every other counter of the code base - a narrower one wraps to "unreferenced" or
+    "empty" while objects are still live."""
+    from . import numeric
+    seen = {}
+    for f in P.fns.values():
+        if f.unit.startswith('tests/'):
+            continue
+        for s in f.sites():
+            for ex in event_exprs(s.ev) + ([s.ev.get('lhs')] if s.ev['k'] == 'store' and s.ev.get('op') in ('++', '--') else []):
+                for x in walk(ex):
+                    m = None
+                    if x is s.ev.get('lhs') and x.get('k') == 'mem' and s.ev['k'] == 'store' and s.ev.get('op') in ('++', '--'):
+                        m = x
+                    if x.get('k') == 'un' and x.get('op') in ('++', '--') and isinstance(x.get('e'), dict) and x['e'].get('k') == 'mem':
+                        m = x['e']
+                    if m is not None and numeric.type_range(m.get('t') or ''):
+                        seen.setdefault((m.get('rec'), m.get('field')), (m.get('t'), s))
+    n = 0
+    for (rec, fld), (t, s) in sorted(seen.items(), key=str):
+        if recs and rec not in recs:
+            continue
+        fd = P.record_field(rec, fld) or {}
+        tr = numeric.type_range(t)
+        wide = tr[1] >= 2 ** 31 - 1 and not fd.get('bitfield')
+        n += 1
+        R.ob(rule, wide, s, 'counter %s.%s is kept in %s%s: at least the range of int' % (rec or '<anonymous>', fld, t, (' : %s' % fd.get('bitfield')) if fd.get('bitfield') else ''), key='counter-width:%s.%s' % (rec, fld))
+    return n
